@@ -131,8 +131,10 @@ def gen_history(rng, n, cell, length):
             if st[r]["n"] == 0:
                 continue
             toks.append("p%d:%d" % (i, r))
-        elif c < 0.91:
+        elif c < 0.885:
             toks.append("X%d" % i)
+        elif c < 0.91:
+            toks.append("Y%d" % i)        # the array behind .xyz edited in place, then assigned: t.xyz += c
         elif c < 0.96:
             toks.append("T%d:%d" % (i, rng.choice([100, 7, 9, 8, 99, 101])))
         else:
@@ -165,6 +167,8 @@ class Runner:
         self.pool = [t0]
         self.shadow = [t0.xyz.copy()]
         self.problems = []
+        self.known = []             # occurrences of the recorded finding: a cache left stale in ANOTHER trajectory that shares the storage
+        self.known_stale = set()
         self.rs = np.random.RandomState(rng_seed)
 
     def problem(self, kind, msg):
@@ -239,6 +243,7 @@ class Runner:
                         new, newsh, copied = r, np.array(sh[i][:, idx], order="C"), True
             elif op == "c":
                 t.center_coordinates()
+                self.known_stale.discard(i)
                 if sh[i].size:
                     sh[i] -= sh[i].astype(np.float64).mean(axis=1, keepdims=True).astype(np.float32)   # in place, like numpy would
             elif op == "w":
@@ -255,6 +260,18 @@ class Runner:
                 val = self.rs.uniform(-1, 3, (t.n_frames, t.n_atoms, 3)).astype(np.float32)
                 t.xyz = val
                 sh[i] = val.copy()
+            elif op == "Y":
+                # x = t.xyz; x += d; t.xyz = x  (what `t.xyz += d` does): the setter receives the array the trajectory already holds
+                for j, o in enumerate(pool):
+                    if j != i and o._rmsd_traces is not None and o.n_frames and t.n_frames and np.shares_memory(o._xyz, t._xyz):
+                        self.known_stale.add(j)
+                d_ = self.rs.uniform(0.5, 2.0, (t.n_frames, 1, 3)).astype(np.float32) * self.rs.choice([-1.0, 1.0])
+                x_ = t.xyz
+                x_ += d_ * np.linspace(0.0, 1.0, t.n_atoms, dtype=np.float32)[None, :, None]
+                t.xyz = x_
+                if sh[i].size:
+                    sh[i] += d_ * np.linspace(0.0, 1.0, t.n_atoms, dtype=np.float32)[None, :, None]
+                self.known_stale.discard(i)
             elif op == "T":
                 # time stamps as users assign them: float32 (as read from files), float64 with a part below float32 resolution, or integers;
                 # later joins mix these dtypes and must behave like np.concatenate (promotion, no truncation)
@@ -282,6 +299,8 @@ class Runner:
                         self.problem("shares-data", "%s: result shares time/cell/topology with trajectory %d" % (tok, j))
             pool.append(new)
             sh.append(newsh)
+            if i in self.known_stale and new._rmsd_traces is not None:
+                self.known_stale.add(len(pool) - 1)
         self.check_all(tok)
 
     def check_all(self, tok):
@@ -294,6 +313,9 @@ class Runner:
                 self.problem("xyz", "after %s: coordinates of trajectory %d differ from the numpy shadow (max %.3g)" % (
                     tok, j, float(np.abs(t.xyz - s).max()) if t.xyz.shape == s.shape and s.size else -1))
             if t._rmsd_traces is not None and n > 0:
+                if j in self.known_stale:
+                    self.known.append("after %s: trajectory %d shares storage with a trajectory whose array was edited in place and assigned; its cache was not reset" % (tok, j))
+                    continue
                 if len(np.atleast_1d(t._rmsd_traces)) != n:
                     self.problem("cache", "after %s: trajectory %d has %d cached traces for %d frames" % (tok, j, len(np.atleast_1d(t._rmsd_traces)), n))
                     continue
@@ -365,6 +387,10 @@ def run(ctx):
         (8, False, ["c0", "v0:0,5", "p0:0", "g1:s_,_,-1"]),
         (6, True, ["c0", "g0:x0,-1,2", "j1:0", "k0:0", "g0:m101010"]),
         (5, True, ["g0:i5", "g0:i-6", "j0:0,0", "C0:0", "j0:1"]),
+        (6, False, ["c0", "Y0", "g0:s1,4,1"]),                 # t.xyz += c after centring: the setter must drop the cache
+        (6, False, ["c0", "g0:s_,_,1", "Y1", "c0", "Y0", "g0:m110011"]),
+        (6, True, ["c0", "v0:0,4", "Y1"]),                     # the same through a view: the source's cache goes stale (recorded finding)
+        (6, False, ["c0", "v0:1,5", "Y0", "g1:s_,_,2"]),       # and the view's, edited through the source
     ]
     for _ in range(n_hist):
         n = rng.choice([1, 2, 5, 8])
@@ -399,13 +425,15 @@ def run(ctx):
                 break
         nontriv = None
         cidx = [k for k, t in enumerate(toks) if t[0] == "c"]
-        if cidx and any(t[0] in "gvajkp" for t in toks[cidx[0] + 1:]):
+        if cidx and any(t[0] in "gvajkpY" for t in toks[cidx[0] + 1:]):
             nontriv = (n, cell, tuple(toks))
         ctx.case(dict(n_frames=n, cell=cell, ops=toks), nontriv)
         ctx.count("histories")
         ctx.count("ops", len(toks))
         for t in toks:
             ctx.count("op:" + t[0])
+        if r.known:
+            seen.setdefault("cache|alias|in-place-assignment-through-view", ("history %s on %d frames: %s" % (toks, n, r.known[0]), dict(n_frames=n, cell=cell, ops=toks, seed=hi)))
         if r.problems:
             kind, msg = r.problems[0]
             done = toks[:toks.index(tok) + 1]
